@@ -436,6 +436,60 @@ func propC06(c *Ctx) {
 			}
 		}
 	}
+	// the host arithmetic of the other types, for operands of one type: integers (two's complement wrap-around, truncated
+	// division), strings (concatenation, byte-wise order), booleans, time spans
+	b2s := func(b bool) string {
+		if b {
+			return "ok b1"
+		}
+		return "ok b0"
+	}
+	for _, a := range all {
+		for _, b := range all {
+			if a.Type() != b.Type() {
+				continue
+			}
+			want := map[string]string{}
+			switch a.Type() {
+			case variants.Integer, variants.Long:
+				var x, y int64
+				pre := "ok l"
+				if a.Type() == variants.Long {
+					x, y = a.AsLong(), b.AsLong()
+				} else {
+					x, y, pre = int64(a.AsInteger()), int64(b.AsInteger()), "ok i"
+				}
+				num := func(v int64) string { return pre + strconv.FormatInt(v, 10) }
+				want["add"], want["sub"], want["mul"] = num(x+y), num(x-y), num(x*y)
+				want["and"], want["or"], want["xor"] = num(x&y), num(x|y), num(x^y)
+				if y != 0 && !(x == math.MinInt64 && y == -1) {
+					want["div"], want["mod"] = num(x/y), num(x%y)
+				}
+				want["less"], want["more"], want["equal"], want["lessEqual"], want["moreEqual"], want["notEqual"] = b2s(x < y), b2s(x > y), b2s(x == y), b2s(x <= y), b2s(x >= y), b2s(x != y)
+			case variants.String:
+				x, y := a.AsString(), b.AsString()
+				want["add"] = "ok " + encVariant(vStr(x+y))
+				want["less"], want["more"], want["equal"], want["lessEqual"], want["moreEqual"], want["notEqual"] = b2s(x < y), b2s(x > y), b2s(x == y), b2s(x <= y), b2s(x >= y), b2s(x != y)
+			case variants.Boolean:
+				x, y := a.AsBoolean(), b.AsBoolean()
+				want["and"], want["or"], want["xor"], want["equal"], want["notEqual"] = b2s(x && y), b2s(x || y), b2s(x != y), b2s(x == y), b2s(x != y)
+			case variants.TimeSpan:
+				x, y := a.AsTimeSpan(), b.AsTimeSpan()
+				want["add"], want["sub"] = "ok "+encVariant(vSpan(x+y)), "ok "+encVariant(vSpan(x-y))
+				want["less"], want["more"], want["equal"], want["lessEqual"], want["moreEqual"], want["notEqual"] = b2s(x < y), b2s(x > y), b2s(x == y), b2s(x <= y), b2s(x >= y), b2s(x != y)
+			case variants.DateTime:
+				x, y := a.AsDateTime(), b.AsDateTime()
+				want["less"], want["more"], want["equal"], want["lessEqual"], want["moreEqual"], want["notEqual"] = b2s(x.Before(y)), b2s(x.After(y)), b2s(x.Equal(y)), b2s(!x.After(y)), b2s(!x.Before(y)), b2s(!x.Equal(y))
+			default:
+				continue
+			}
+			for name, w := range want {
+				if got := runOpCase(c, "u", opIndex(name), a, b); got != w {
+					c.fail(Failure{Kind: "oracle", Op: fmt.Sprintf("op u %s %s %s", name, encArg(a), encArg(b)), Impl: got, Note: "the host arithmetic of the operands' type gives " + w})
+				}
+			}
+		}
+	}
 	// shifts follow the host's integer semantics for every non-negative count: counts of 64 and more (also those whose low 5, 6
 	// or 32 bits are zero) shift everything out
 	for _, a := range all {
@@ -648,6 +702,49 @@ func runConvCase(c *Ctx, m string, a *variants.Variant, t variants.VariantType) 
 		} else if res.Type() != t {
 			c.fail(Failure{Kind: "oracle", Op: op, Impl: impl, Note: fmt.Sprintf("successful conversion returned type %d instead of the requested type %d", res.Type(), t)})
 			return impl
+		}
+		// the units named by the property: time spans count in milliseconds, date-times in Unix seconds
+		if a.Type() == variants.Integer || a.Type() == variants.Long {
+			var n int64
+			if a.Type() == variants.Long {
+				n = a.AsLong()
+			} else {
+				n = int64(a.AsInteger())
+			}
+			if t == variants.TimeSpan && n > -1<<40 && n < 1<<40 && res.AsTimeSpan() != time.Duration(n)*time.Millisecond {
+				c.fail(Failure{Kind: "oracle", Op: op, Impl: impl, Note: fmt.Sprintf("%d converted to a time span must be %d milliseconds, got %v", n, n, res.AsTimeSpan())})
+				return impl
+			}
+			if t == variants.DateTime && n > -1<<40 && n < 1<<40 && !res.AsDateTime().Equal(time.Unix(n, 0)) {
+				c.fail(Failure{Kind: "oracle", Op: op, Impl: impl, Note: fmt.Sprintf("%d converted to a date-time must be %d seconds after the Unix epoch, got %v", n, n, res.AsDateTime())})
+				return impl
+			}
+		}
+		if a.Type() == variants.TimeSpan && (t == variants.Long || t == variants.Integer) {
+			want := int64(a.AsTimeSpan() / time.Millisecond)
+			got := int64(0)
+			if t == variants.Long {
+				got = res.AsLong()
+			} else {
+				got = int64(res.AsInteger())
+			}
+			if got != want {
+				c.fail(Failure{Kind: "oracle", Op: op, Impl: impl, Note: fmt.Sprintf("the time span %v converted to an integer type must be %d (milliseconds), got %d", a.AsTimeSpan(), want, got)})
+				return impl
+			}
+		}
+		if a.Type() == variants.DateTime && (t == variants.Long || t == variants.Integer) {
+			want := a.AsDateTime().Unix()
+			got := int64(0)
+			if t == variants.Long {
+				got = res.AsLong()
+			} else {
+				got = int64(res.AsInteger())
+			}
+			if got != want {
+				c.fail(Failure{Kind: "oracle", Op: op, Impl: impl, Note: fmt.Sprintf("the date-time %v converted to an integer type must be %d (Unix seconds), got %d", a.AsDateTime(), want, got)})
+				return impl
+			}
 		}
 		if a.Type() == variants.String && (t == variants.Integer || t == variants.Long) && decimalRe.MatchString(a.AsString()) {
 			if n, err := strconv.ParseInt(a.AsString(), 10, 64); err == nil {
